@@ -254,11 +254,9 @@ func (c *connectClient) WriteRequestHeader(streamType StreamType, header http.He
 	}
 }
 
-func (c *connectClient) NewConn(
-	ctx context.Context,
-	spec Spec,
-	header http.Header,
-) StreamingClientConn {
+// connectSetRequestTimeout makes the timeout header say what's left of the
+// context's deadline right now, or nothing if there's no deadline.
+func connectSetRequestTimeout(ctx context.Context, header http.Header) {
 	// The header map may be the caller's Request.Header(), which outlives this
 	// call: don't let a timeout written for an earlier call linger.
 	header.Del(connectHeaderTimeout)
@@ -273,7 +271,21 @@ func (c *connectClient) NewConn(
 			} // else effectively unbounded
 		}
 	}
+}
+
+func (c *connectClient) NewConn(
+	ctx context.Context,
+	spec Spec,
+	header http.Header,
+) StreamingClientConn {
+	connectSetRequestTimeout(ctx, header)
 	duplexCall := newDuplexHTTPCall(ctx, c.HTTPClient, c.URL, spec, header)
+	// The timeout we send is what's left of the deadline when the request goes
+	// out. For streams, that may be long after the stream was created - and
+	// more headers may have been merged into the map in between.
+	duplexCall.SetOnRequestSend(func(header http.Header) {
+		connectSetRequestTimeout(ctx, header)
+	})
 	var conn StreamingClientConn
 	if spec.StreamType == StreamTypeUnary {
 		unaryConn := &connectUnaryClientConn{
